@@ -1,7 +1,6 @@
 package gen
 
 import (
-	"fmt"
 	"strings"
 	"unicode"
 	"unicode/utf8"
@@ -18,52 +17,8 @@ type RespellStats struct {
 	QuoteSwitches int
 }
 
-// CharForms returns every spelling of rune r as a gocc character literal
-// (hex digits lower case); the first is the canonical one.
-func CharForms(r rune) []string {
-	forms := []string{gr.CharLit(r)}
-	add := func(s string) {
-		for _, f := range forms {
-			if f == s {
-				return
-			}
-		}
-		forms = append(forms, s)
-	}
-	// raw
-	if r != '\'' && r != '\\' && r != '\n' && r != 0 && utf8.ValidRune(r) && r != utf8.RuneError {
-		add("'" + string(r) + "'")
-	}
-	if r < 256 {
-		add(fmt.Sprintf(`'\x%02x'`, r))
-		add(fmt.Sprintf(`'\%03o'`, r))
-	}
-	if r < 0x10000 {
-		add(fmt.Sprintf(`'\u%04x'`, r))
-	}
-	add(fmt.Sprintf(`'\U%08x'`, r))
-	switch r {
-	case 7:
-		add(`'\a'`)
-	case 8:
-		add(`'\b'`)
-	case 12:
-		add(`'\f'`)
-	case 10:
-		add(`'\n'`)
-	case 13:
-		add(`'\r'`)
-	case 9:
-		add(`'\t'`)
-	case 11:
-		add(`'\v'`)
-	case '\\':
-		add(`'\\'`)
-	case '\'':
-		add(`'\''`)
-	}
-	return forms
-}
+// CharForms returns every spelling of rune r as a gocc character literal.
+func CharForms(r rune) []string { return gr.CharForms(r) }
 
 func randCaseHex(t *rapid.T, s string) string {
 	// only the hex digits of \x \u \U escapes may change case
